@@ -585,6 +585,11 @@ class Effects:
                         assign(s.target, s.value, env)
                 elif isinstance(s, ast.Expr):
                     expr_effects(s.value, env, guards)
+                    if isinstance(s.value, ast.Yield) and s.value.value is not None:
+                        # a generator hands out its elements one by one: what iterating over a call of it gives
+                        rets.update(self.prov(s.value.value, env, f, ctx))
+                    elif isinstance(s.value, ast.YieldFrom):
+                        rets.update(self.prov(s.value.value, env, f, ctx))
                     if isinstance(s.value, ast.Call) and ast.unparse(s.value.func) in ('sys.exit', 'os._exit'):
                         return env, True
                 elif isinstance(s, ast.Return):
